@@ -464,6 +464,8 @@ package spine
 // (*FeatureLocal).HandleMessage and (*NodeManagement).HandleMessage).
 //@ iface api.FeatureLocalInterface.HandleMessage
 //@   requires message != nil && message.FeatureRemote != nil && message.RequestHeader != nil && message.RequestHeader.AddressDestination != nil
+//@   requires wellformed: (message.CmdClassifier == model.CmdClassifierTypeResult) <==> (message.Cmd.ResultData != nil)
+//@   requires same-peer: message.DeviceRemote != nil && message.DeviceRemote.Sender() == message.FeatureRemote.Device().Sender()
 //@   let S = message.FeatureRemote.Device().Sender()
 //@   let K = rn[S]
 //@   let CLS = message.CmdClassifier
@@ -484,6 +486,8 @@ package spine
 //@ func (*DeviceLocal).ProcessCmd
 //@   requires r != nil && remoteDevice != nil && datagram.Header.AddressDestination != nil && datagram.Header.AddressSource != nil && datagram.Header.CmdClassifier != nil && len(datagram.Payload.Cmd) > 0
 //@   requires remoteDevice.FeatureByAddress(datagram.Header.AddressSource) != nil
+//@   requires wellformed: (*datagram.Header.CmdClassifier == model.CmdClassifierTypeResult) <==> (datagram.Payload.Cmd[0].ResultData != nil)
+//@   requires same-peer: remoteDevice.FeatureByAddress(datagram.Header.AddressSource).Device().Sender() == remoteDevice.Sender()
 //@   let RF = remoteDevice.FeatureByAddress(datagram.Header.AddressSource)
 //@   let S = remoteDevice.FeatureByAddress(datagram.Header.AddressSource).Device().Sender()
 //@   let K = rn[S]
@@ -581,7 +585,7 @@ package spine
 //@   modifies @RESP, outmisc, sendfails, held
 
 //@ func (*NodeManagement).processReplyDetailedDiscoveryData
-//@   requires r != nil && message != nil && message.DeviceRemote != nil && data != nil && data.DeviceInformation != nil
+//@   requires r != nil && message != nil
 //@   ensures[C01] no-response: noResp
 //@   modifies @PUBLISH, world, held
 
@@ -590,7 +594,7 @@ package spine
 //@   modifies @PUBLISH, world, held
 
 //@ func (*NodeManagement).handleMsgDetailedDiscoveryData
-//@   requires NMREQ && message.DeviceRemote != nil && message.DeviceRemote.Sender() == nmS && data != nil && (message.CmdClassifier == model.CmdClassifierTypeReply ==> data.DeviceInformation != nil)
+//@   requires NMREQ && message.DeviceRemote != nil && message.DeviceRemote.Sender() == nmS
 //@   let K = rn[nmS]
 //@   ensures[C01] read-replies: result == nil && message.CmdClassifier == model.CmdClassifierTypeRead ==> oneReply(nmS, K, message.RequestHeader)
 //@   ensures[C01] others-silent: message.CmdClassifier != model.CmdClassifierTypeRead || result != nil ==> respSame && sendfails >= old(sendfails)
@@ -632,5 +636,4 @@ package spine
 
 //@ func[C01] (*NodeManagement).HandleMessage impl:api.FeatureLocalInterface.HandleMessage
 //@   requires r != nil && r.FeatureLocal != nil && r.FeatureLocal.Feature != nil && r.FeatureLocal.address != nil && r.FeatureLocal.responseMsgCallback != nil
-//@   requires message.DeviceRemote != nil && message.DeviceRemote.Sender() == message.FeatureRemote.Device().Sender()
 //@   modifies map(gomap[model.MsgCounterType][]func(api.ResponseMessage))
